@@ -5,6 +5,11 @@ use super::*;
 /// replace(b2): evict from T1 if |T1|>0 and (|T1|>p or (|T1|=p and b2)) else from T2, falling
 /// back to the non-empty list; the victim becomes the most recent ghost of the matching list.
 fn replace(post: &mut MState, p: usize, b2: bool) -> &'static str {
+    replace_v(post, p, b2).0
+}
+
+/// as `replace`, also naming the ghost list and the victim that entered it
+fn replace_v(post: &mut MState, p: usize, b2: bool) -> (&'static str, Option<(usize, (u32, u64))>) {
     let t1 = post.lists[0].len();
     let t2 = post.lists[1].len();
     let from_t1_rule = t1 > 0 && (t1 > p || (t1 == p && b2));
@@ -15,11 +20,11 @@ fn replace(post: &mut MState, p: usize, b2: bool) -> &'static str {
     } else if t1 > 0 {
         (0, "replace_t1_fallback")
     } else {
-        return "replace_nothing";
+        return ("replace_nothing", None);
     };
     let v = post.lists[src].pop().unwrap();
     post.lists[src + 2].insert(0, v);
-    tag
+    (tag, Some((src + 2, v)))
 }
 
 pub fn step(s: &MState, op: &Op) -> Option<Vec<Expect>> {
@@ -52,7 +57,7 @@ pub fn step(s: &MState, op: &Op) -> Option<Vec<Expect>> {
                 let np = std::cmp::min(size, p + delta);
                 post.scalars[1] = np as i64;
                 let old = post.lists[2].remove(i).1;
-                let tag = if full { replace(&mut post, np, false) } else { "b1_hit_not_full" };
+                let (tag, victim) = if full { replace_v(&mut post, np, false) } else { ("b1_hit_not_full", None) };
                 post.lists[1].insert(0, (k, v));
                 let tag: &'static str = match (tag, delta > 1, np == size) {
                     ("replace_t1_over_p", _, _) => "put_b1_hit_replace_t1",
@@ -62,14 +67,17 @@ pub fn step(s: &MState, op: &Op) -> Option<Vec<Expect>> {
                     (_, _, true) => "put_b1_hit_p_capped",
                     _ => "put_b1_hit",
                 };
-                return Some(vec![lenient(Expect::new(Val::Put(PutRes::Update(old)), post, tag))]);
+                let mut e = lenient(Expect::new(Val::Put(PutRes::Update(old)), post, tag));
+                // on a ghost hit nothing trims the ghost lists: the victim must be remembered
+                e.front_required = victim.into_iter().collect();
+                return Some(vec![e]);
             }
             if let Some(i) = b2.iter().position(|e| e.0 == k) {
                 let delta = std::cmp::max(1, b1.len() / b2.len());
                 let np = p.saturating_sub(delta);
                 post.scalars[1] = np as i64;
                 let old = post.lists[3].remove(i).1;
-                let tag = if full { replace(&mut post, np, true) } else { "b2_hit_not_full" };
+                let (tag, victim) = if full { replace_v(&mut post, np, true) } else { ("b2_hit_not_full", None) };
                 post.lists[1].insert(0, (k, v));
                 let tag: &'static str = match tag {
                     "replace_t1_over_p" => "put_b2_hit_replace_t1",
@@ -78,7 +86,9 @@ pub fn step(s: &MState, op: &Op) -> Option<Vec<Expect>> {
                     "replace_t1_fallback" => "put_b2_hit_replace_t1_fallback",
                     _ => "put_b2_hit",
                 };
-                return Some(vec![lenient(Expect::new(Val::Put(PutRes::Update(old)), post, tag))]);
+                let mut e = lenient(Expect::new(Val::Put(PutRes::Update(old)), post, tag));
+                e.front_required = victim.into_iter().collect();
+                return Some(vec![e]);
             }
             let tag = if full { replace(&mut post, p, false) } else { "new_not_full" };
             post.lists[0].insert(0, (k, v));
